@@ -35,7 +35,7 @@ ID = "C07"
 LEAN_TARGETS = ["RV.C07.Props", "RV.C07.Audit"]
 AUDIT = "RV/C07/Audit.lean"
 DRIVER = "drv_c07"
-CASES = {"quick": 1200, "thorough": 30000, "search": 20000}
+CASES = {"quick": 1200, "thorough": 30000, "search": 2048}
 RULE = ("3-7 terms per case drawn from every kind (URIRef, Genid, RDFLibGenid, BNode, Variable, Literal over every "
         "datatype of XSDToPython with valid / invalid / non-normalised lexical forms, language tags differing in case, "
         "NaN/INF, naive and aware date-times, arbitrary Unicode incl. quotes, backslashes, CR/LF/TAB, controls, non-BMP), "
@@ -165,7 +165,24 @@ def _gen_retyped(rng):
     lang = rng.choice(LANGS) if rng.random() < 0.25 else None
     if lang and dt and rng.random() < 0.4:
         return {"k": "lit", "lex": lex, "dt": dt, "lang": lang, "nn": False, "re": "lang"}
+    if dt and rng.random() < 0.35:
+        # copy construction Literal(Literal(lex, datatype=dt)): datatype and value are copied, `ill_typed` is not
+        return {"k": "lit", "lex": lex, "dt": dt, "lang": None, "nn": False, "re": "copy"}
     return {"k": "lit", "lex": lex, "dt": dt, "lang": lang, "nn": False, "re": True}
+
+
+NUMERIC_NAMES = ["integer", "decimal", "double", "float", "unsignedByte", "long", "nonNegativeInteger"]
+ILL_NUMERIC = ["abc", "1.5.2", "", "x1", "2abc", "1,5", "--1", "0x10", "ten"]
+
+
+def _retyped_sibling(rng, t):
+    """another literal from the same constructor route and numeric datatype with another ill-formed lexical form
+    (both have `value None, ill_typed None`: the ordering of such a pair is what the numeric fast path must not break)"""
+    t2 = dict(t)
+    t2["lex"] = rng.choice([x for x in ILL_NUMERIC if x != t["lex"]])
+    if rng.random() < 0.3:
+        t2["dt"] = XSD + rng.choice(NUMERIC_NAMES)
+    return t2
 
 
 PY_VALUES = [["int", "0"], ["int", "5"], ["int", "-7"], ["bool", "True"], ["bool", "False"], ["float", "1.5"], ["float", "0.0"],
@@ -253,6 +270,39 @@ def _variant(rng, t):
     return t
 
 
+FAMILY_POOLS = {
+    "numeric": [("1", "integer"), ("01", "integer"), ("1.0", "decimal"), ("1.0", "double"), ("1E0", "double"), ("1", "unsignedByte"),
+                ("2", "unsignedByte"), ("1.5", "decimal"), ("1.50", "decimal"), ("-1", "long"), ("INF", "double"), ("-INF", "float"),
+                ("10", "nonNegativeInteger"), ("9", "unsignedShort"), ("1e1", "double"), ("0.1", "double"), ("0.1", "decimal"),
+                ("0.1", "float"), ("-0.0", "double"), ("0", "integer"), ("99999999999999999999", "integer"), ("1e400", "double"),
+                ("Infinity", "decimal"), ("3", "positiveInteger"), ("abc", "integer"), ("5x", "integer"), ("", "decimal")],
+    "dateTime": [("2001-10-26T21:32:52", "dateTime"), ("2001-10-26T21:32:52Z", "dateTime"), ("2001-10-26T23:32:52+02:00", "dateTime"),
+                 ("2001-10-26T21:32:52+02:00", "dateTime"), ("2001-10-26T19:32:52Z", "dateTime"), ("2001-10-26T21:32:52.12679", "dateTime"),
+                 ("2001-10-27T00:00:00", "dateTime"), ("2001-10-26T24:00:00", "dateTime"), ("1999-12-31T23:59:59-05:00", "dateTime"),
+                 ("2000-01-01T04:59:59Z", "dateTime"), ("abc", "dateTime"), ("2001-10-26 21:32:52", "dateTime")],
+    "date": [("2001-10-26", "date"), ("2001-10-27", "date"), ("2001-10-26Z", "date"), ("2001-10-26+02:00", "date"), ("1999-01-01", "date"),
+             ("abc", "date"), ("2001-1-1", "date"), ("2001", "gYear"), ("2002", "gYear"), ("2001-10", "gYearMonth")],
+    "boolean": [("true", "boolean"), ("false", "boolean"), ("1", "boolean"), ("0", "boolean"), ("TRUE", "boolean"), ("abc", "boolean")],
+    "string": [("a", None), ("a", "string"), ("b", None), ("A", "string"), ("", None), ("", "string"), ("a b", "token"), (" a  b ", "token"),
+               ("a\tb", "normalizedString"), ("a b", "normalizedString"), ("ab", None), ("http://x", "anyURI"), ("http://y", "anyURI")],
+    "illtyped": [("abc", "integer"), ("abd", "integer"), ("", "integer"), ("5x", "integer"), ("x", "http://e/dt"), ("y", "http://e/dt"),
+                 ("xy", "http://e/dt"), ("abc", "dateTime"), ("abd", "dateTime")],
+}
+
+
+def _gen_family(rng):
+    """three to four literals of ONE value family (numeric tower across datatypes, date-times naive and aware, dates,
+    booleans, strings with and without tags, ill-typed forms of one datatype): pairs and triples inside a family"""
+    fam = rng.choice(list(FAMILY_POOLS))
+    pool = FAMILY_POOLS[fam]
+    out = []
+    for lex, name in (rng.choice(pool) for _ in range(rng.choice([3, 3, 4]))):
+        dt = None if name is None else (name if ":" in name else XSD + name)
+        lang = rng.choice(LANGS[:5]) if fam == "string" and name is None and rng.random() < 0.4 else None
+        out.append({"k": "lit", "lex": lex, "dt": dt, "lang": lang, "nn": rng.random() < 0.5})
+    return out
+
+
 ENVS = ["nonorm", "dawg", "bind"]
 
 
@@ -266,6 +316,19 @@ def gen_case(rng, tier, i):
             terms.append(_variant(rng, rng.choice(terms)))
         else:
             terms.append(_gen_term(rng, p_route))
+    # the literal-from-literal route in the ordering stream: ill-formed numeric forms in pairs, next to numeric literals
+    if rng.random() < (0.10 if thorough else 0.06):
+        base = {"k": "lit", "lex": rng.choice(ILL_NUMERIC), "dt": XSD + rng.choice(NUMERIC_NAMES), "lang": None, "nn": False,
+                "re": rng.choice([True, "copy"])}
+        extra = [base, _retyped_sibling(rng, base),
+                 {"k": "lit", "lex": rng.choice(["5", "10", "1.5", "-3"]), "dt": XSD + rng.choice(["integer", "decimal"]), "lang": None, "nn": False}]
+        terms = (terms + extra)[-7:] if len(terms) + 3 > 7 else terms + extra
+        n = len(terms)
+    # round g: a cluster of one value family (the ordering inside a family is an order by value: pairs and triples)
+    if rng.random() < (0.30 if thorough else 0.22):
+        extra = _gen_family(rng)
+        terms = (terms + extra)[-7:] if len(terms) + len(extra) > 7 else terms + extra
+        n = len(terms)
     rng.shuffle(terms)
     p1 = list(range(n)); rng.shuffle(p1)
     p2 = list(range(n)); rng.shuffle(p2)
@@ -484,6 +547,8 @@ def build(t):
         return BNode(_sn_gen=lambda: t["gen"], _prefix=t.get("prefix", "N"))
     if k == "lit" and t.get("re") == "lang":   # a datatyped literal re-made into a language-tagged one
         return Literal(Literal(t["lex"], datatype=t.get("dt"), normalize=False), lang=t.get("lang"))
+    if k == "lit" and t.get("re") == "copy":   # copy construction of a datatyped literal
+        return Literal(Literal(t["lex"], datatype=t.get("dt"), normalize=False))
     if k == "lit" and t.get("re"):             # a plain / language-tagged literal re-typed
         return Literal(Literal(t["lex"], lang=t.get("lang")), datatype=t.get("dt"))
     if k == "lit":
@@ -548,6 +613,131 @@ def _covered(a, b):
         if x.value is not None and x.value != str(x):
             return False
     return True
+
+
+# ------------------------------------------------------------------ typed values (round g): what crosses to the model
+
+import datetime as _dtm  # noqa: E402
+import decimal as _dec  # noqa: E402
+
+_EPOCH = _dtm.datetime(1, 1, 1)
+_US = _dtm.timedelta(microseconds=1)
+
+
+def _vcode(v):
+    """the value of a literal as the driver reads it; `o` = a value of a Python type the model does not carry"""
+    if v is None:
+        return "-"
+    if type(v) is bool:
+        return "b:1" if v else "b:0"
+    if type(v) is int:
+        return "n:%d/1" % v
+    if type(v) is float:
+        if v != v:
+            return "nan"
+        if v in (float("inf"), float("-inf")):
+            return "pinf" if v > 0 else "ninf"
+        p, q = v.as_integer_ratio()
+        return "n:%d/%d" % (p, q)
+    if type(v) is _dec.Decimal:
+        if v.is_nan():
+            return "o"      # comparisons of a Decimal NaN raise InvalidOperation: not carried (finding K3)
+        if v.is_infinite():
+            return "pinf" if v > 0 else "ninf"
+        p, q = v.as_integer_ratio()
+        return "n:%d/%d" % (p, q)
+    if type(v) is str:
+        return "s:" + _cps(v) if _scalar(v) else "o"
+    if type(v) is _dtm.datetime:
+        off = v.utcoffset()
+        wall = (v.replace(tzinfo=None) - _EPOCH) // _US
+        return "t:%d/%s" % (wall, "-" if off is None else str(off // _US))
+    if type(v) is _dtm.date:
+        return "d:%d" % v.toordinal()
+    return "o"
+
+
+def _venc(t):
+    """a literal with its value, as the driver reads it"""
+    dt, lang = t.datatype, t.language
+    return "%s %s %s %s %s" % (_cps(str(t)), "-" if dt is None else _cps(str(dt)), "-" if lang is None else _cps(lang),
+                               _vcode(t.value), _b(bool(t.ill_typed)))
+
+
+def _carried(t):
+    return isinstance(t, Literal) and _scalar(str(t)) and (t.datatype is None or _scalar(str(t.datatype))) \
+        and _vcode(t.value) != "o"
+
+
+# the numeric datatypes of XML Schema (spec side of the numeric fast path; not read from rdflib)
+NUMERIC_SPEC = {XSD + n for n in ("integer", "decimal", "double", "float", "byte", "int", "long", "negativeInteger",
+                                  "nonNegativeInteger", "nonPositiveInteger", "positiveInteger", "short", "unsignedByte",
+                                  "unsignedInt", "unsignedLong", "unsignedShort")}
+
+
+def _vclass(v):
+    """Python type class of a carried value: str | num | dtm | date; None for a NaN or a type that is not carried"""
+    c = _vcode(v)
+    if c in ("-", "o", "nan"):
+        return None
+    return {"s": "str", "b": "num", "n": "num", "p": "num", "t": "dtm", "d": "date"}[c[0]]
+
+
+def _family(t):
+    """the family of a literal in which its ordering must be an order by value (or by lexical form when there is no
+    value): numeric | one datatype, one language, one value type | one datatype without values.  None = in no family."""
+    if not isinstance(t, Literal) or _vcode(t.value) == "o":
+        return None
+    dt = None if t.datatype is None else str(t.datatype)
+    lang = (t.language or "").lower()
+    v = t.value
+    if v is None:
+        return ("lex", dt, lang) if dt is not None and dt != XSD + "string" else None
+    c = _vclass(v)
+    if c is None:
+        return None
+    if dt in NUMERIC_SPEC:
+        return ("num",) if c == "num" and not t.ill_typed else None
+    d = dt or XSD + "string"
+    if d == XSD + "string" and v != str(t):
+        return None
+    return ("val", d, lang, c)
+
+
+def _op(f):
+    """0 | 1 | ! (TypeError) | X:<other exception>"""
+    try:
+        r = f()
+    except TypeError:
+        return "!"
+    except Exception as e:  # noqa: BLE001
+        return "X:" + type(e).__name__
+    return _b(r)
+
+
+def _six(a, b):
+    return {"gt": _op(lambda: a > b), "lt": _op(lambda: a < b), "le": _op(lambda: a <= b), "ge": _op(lambda: a >= b),
+            "eq": _op(lambda: a.eq(b)), "ne": _op(lambda: a.neq(b))}
+
+
+def _weak_order(lits):
+    """`<` on the list raises nothing and is a strict weak order (asymmetric, transitive, incomparability transitive):
+    then every stable comparison sort gives the same list"""
+    n = len(lits)
+    lt = [[_op(lambda a=a, b=b: a < b) for b in lits] for a in lits]
+    if any(x not in "01" for row in lt for x in row):
+        return False
+    L = [[x == "1" for x in row] for row in lt]
+    for i in range(n):
+        for j in range(n):
+            if L[i][j] and L[j][i]:
+                return False
+            for k in range(n):
+                if L[i][j] and L[j][k] and not L[i][k]:
+                    return False
+                if not (L[i][j] or L[j][i]) and not (L[j][k] or L[k][j]) and (L[i][k] or L[k][i]):
+                    return False
+    return not any(L[i][i] for i in range(n))
 
 
 def _b(x):
@@ -710,6 +900,58 @@ def run_impl(case):
             if lt is True and gt is True:
                 V("order-asym", f"{a!r} is both < and > {b!r}", i, j)
 
+    # ---------------- round g: the six operators of two literals against `eq`, and the order inside a family
+    if not dawg:
+        lits = [(i, t) for i, t in live if isinstance(t, Literal)]
+        fams = {i: _try(lambda t=t: _family(t)) for i, t in lits}
+        lt_ = {}
+        for i, a in lits:
+            for j, b in lits:
+                o = _six(a, b)
+                lt_[i, j] = o["lt"]
+                bad = [k_ for k_, x in o.items() if x.startswith("X")]
+                if bad:
+                    V("order-exc", f"{a!r} {bad[0]} {b!r} raised {o[bad[0]][2:]}", i, j)
+                    continue
+                stats["vpairs"] = stats.get("vpairs", 0) + 1
+                if o["eq"] in "01" and o["gt"] in "01" and o["lt"] in "01":
+                    e, g, l = o["eq"] == "1", o["gt"] == "1", o["lt"] == "1"
+                    want = {"lt": _b(not g and not e), "le": _b(l or e), "ge": _b(g or e), "ne": _b(not e)}
+                    got = {k_: o[k_] for k_ in want}
+                    if got != want:
+                        V("ops-consistent", f"{a!r} vs {b!r}: eq={o['eq']} gt={o['gt']} but {got} (expected {want})", i, j)
+                # the documented rules of `Literal.__gt__` between classes: different datatypes (plain = xsd:string) order as
+                # their IRIs, one datatype with different tags orders untagged first, then as the lower-cased tags
+                fast = all(x.datatype is not None and str(x.datatype) in NUMERIC_SPEC and x.value is not None and not x.ill_typed
+                           for x in (a, b))
+                da, db = (str(x.datatype) if x.datatype is not None else XSD + "string" for x in (a, b))
+                la, lb = ((x.language or "").lower() for x in (a, b))
+                if not fast and (da != db or la != lb):
+                    wgt = (da > db) if da != db else (bool(la) and (not lb or la > lb))
+                    wlt = (da < db) if da != db else (bool(lb) and (not la or lb > la))
+                    stats["class_pairs"] = stats.get("class_pairs", 0) + 1
+                    if o["gt"] != _b(wgt) or o["lt"] != _b(wlt):
+                        V("class-order", f"{a!r} vs {b!r}: datatype IRI, then language tag, give >:{_b(wgt)} <:{_b(wlt)}; "
+                                         f"got >:{o['gt']} <:{o['lt']}", i, j)
+                f = fams[i]
+                if f is None or isinstance(f, Exception) or fams[j] != f:
+                    continue
+                stats["fam_pairs_" + f[0]] = stats.get("fam_pairs_" + f[0], 0) + 1
+                back = _op(lambda: b < a)
+                incomparable = o["lt"] == "0" and back == "0"
+                if o["lt"] not in "01" or o["gt"] not in "01" or (o["lt"] == "1") != (_op(lambda: b > a) == "1") \
+                        or (o["lt"] == "1" and back == "1") or (i == j and o["lt"] != "0") or incomparable != (o["eq"] == "1"):
+                    V("fam-order", f"{a!r} vs {b!r} (family {f[0]}): lt={o['lt']} gt={o['gt']} eq={o['eq']} converse lt={back}", i, j)
+                if a == b and _vcode(a.value) == _vcode(b.value) and not (o["eq"] == "1" and o["le"] == "1" and o["ge"] == "1"):
+                    V("fam-order", f"{a!r} == {b!r} with the same value but eq={o['eq']} <=:{o['le']} >=:{o['ge']}", i, j)
+        for i, a in lits:
+            for j, b in lits:
+                for k_, c in lits:
+                    if fams[i] is not None and fams[i] == fams[j] == fams[k_] and not isinstance(fams[i], Exception):
+                        stats["fam_triples"] = stats.get("fam_triples", 0) + 1
+                        if lt_[i, j] == "1" and lt_[j, k_] == "1" and lt_[i, k_] != "1":
+                            V("fam-trans", f"{a!r} < {b!r} < {c!r} but not first < third (family {fams[i][0]})", i, j, k_)
+
     # ---------------- equality and hashing with instances of user-defined subclasses (not ordering: `_ORDERING`
     #                  deliberately has no rank for unknown subclasses)
     for i, a in live:
@@ -779,7 +1021,9 @@ def run_impl(case):
                 if bad:
                     break
             lits = [x for x in s1 if isinstance(x, Literal)]
-            strict = _try(lambda: all((a == b) or ((a < b) != (b < a)) for a in lits for b in lits)) is True
+            # demanded when no two unequal literals of the list are incomparable (value-equal literals such as 1 / 1.0
+            # are neither <, > nor == each other by design); a pair ordered by `>` only counts as ordered
+            strict = _try(lambda: all((a == b) or (a < b) or (b < a) or (a > b) or (b > a) for a in lits for b in lits)) is True
             n1 = [x for x in s1 if not isinstance(x, Literal)]
             n2 = [x for x in s2 if not isinstance(x, Literal)]
             if len(n1) != len(n2) or any(not _same(x, y) for x, y in zip(n1, n2)):
@@ -902,7 +1146,13 @@ def run_impl(case):
 
     # ---------------- observations compared with the Lean model
     for st in _steps(case, ts):
-        obs.append(_impl_obs(st, case, ts))
+        o = _impl_obs(st, case, ts)
+        obs.append(o)
+        if st[0] in ("vcmp", "vsort", "msort") and not o.endswith(" -"):
+            stats[st[0] + "_compared_with_model"] = stats.get(st[0] + "_compared_with_model", 0) + 1
+            if st[0] == "vcmp" and ts[st[1]].value is not None and ts[st[2]].value is not None \
+                    and not (isinstance(ts[st[1]].value, str) and isinstance(ts[st[2]].value, str)):
+                stats["vcmp_typed_values"] = stats.get("vcmp_typed_values", 0) + 1
     return {"obs": obs, "viol": viol, "involved": involved, "nontrivial": nontrivial, "key": repr(terms_j), "stats": stats}
 
 
@@ -961,6 +1211,13 @@ def _steps(case, ts):
         if tj["k"] == "lit" and _scalar(tj["lex"]) and _scalar(tj.get("dt") or "") and _scalar(tj.get("lang") or ""):
             st.append(("mk", i))
     st.append(("sort", [i for i in case["p1"] if i in live and not isinstance(ts[i], Literal)]))
+    # round g: the six operators on pairs of literals WITH their values, and sorted() of the literals
+    lits = [i for i in live if isinstance(ts[i], Literal)][:5]
+    for i in lits:
+        for j in lits:
+            st.append(("vcmp", i, j))
+    st.append(("vsort", [i for i in case["p1"] if i in live and isinstance(ts[i], Literal)]))
+    st.append(("msort", [i for i in case["p1"] if i in live]))     # the whole mixed list, literals with their values
     return st
 
 
@@ -1132,7 +1389,45 @@ def _impl_obs(st, case, ts):
         l = [ts[i] for i in st[1]]
         r = _try(lambda: sorted(l))
         return "sort " + ("!" if isinstance(r, Exception) else " ; ".join(enc(x) for x in r))
+    if kind == "vcmp":
+        a, b = ts[st[1]], ts[st[2]]
+        if not _vcmp_modelled(a, b):
+            return "vcmp -"
+        return "vcmp " + " ".join("%s=%s" % kv for kv in _six(a, b).items())
+    if kind == "vsort":
+        l = [ts[i] for i in st[1]]
+        if not _vsort_modelled(l):
+            return "vsort -"
+        return "vsort " + " ; ".join(enc(x) for x in sorted(l))
+    if kind == "msort":
+        l = [ts[i] for i in st[1]]
+        if not _msort_modelled(l):
+            return "msort -"
+        return "msort " + " ; ".join(enc(x) for x in sorted(l))
     raise AssertionError(kind)
+
+
+def _msort_modelled(l):
+    """a mixed list with at least one literal and one other term whose literals `<` orders as a strict weak order"""
+    lits = [x for x in l if isinstance(x, Literal)]
+    return 0 < len(lits) < len(l) and not rdflib.DAWG_LITERAL_COLLATION and all(_carried(x) for x in lits) \
+        and all(_scalar(str(x)) for x in l) and _weak_order(lits)
+
+
+def _vcmp_modelled(a, b):
+    if rdflib.DAWG_LITERAL_COLLATION or not (_carried(a) and _carried(b)):
+        return False
+    # a float NaN against a Decimal: CPython converts the NaN to a Decimal NaN and its comparison signals
+    # InvalidOperation — a pair of values the model does not carry (finding K3)
+    va, vb = a.value, b.value
+    for x, y in ((va, vb), (vb, va)):
+        if type(x) is float and x != x and type(y) is _dec.Decimal:
+            return False
+    return True
+
+
+def _vsort_modelled(l):
+    return len(l) >= 2 and not rdflib.DAWG_LITERAL_COLLATION and all(_carried(x) for x in l) and _weak_order(l)
 
 
 @_with_env
@@ -1177,6 +1472,16 @@ def model_lines(case):
                 lines.append(f"mk 0 {_cps(tj['lex'])} {o(tj.get('lang'))} {o(tj.get('dt'))}")
         elif kind == "sort":
             lines.append("sort " + " ".join(enc(ts[i]) for i in st[1]))
+        elif kind == "vcmp":
+            a, b = ts[st[1]], ts[st[2]]
+            lines.append("vcmp %s %s" % (_venc(a), _venc(b)) if _vcmp_modelled(a, b) else "skip")
+        elif kind == "vsort":
+            l = [ts[i] for i in st[1]]
+            lines.append("vsort " + " ".join(_venc(x) for x in l) if _vsort_modelled(l) else "skip")
+        elif kind == "msort":
+            l = [ts[i] for i in st[1]]
+            lines.append("msort " + " ".join("W " + _venc(x) if isinstance(x, Literal) else enc(x) for x in l)
+                         if _msort_modelled(l) else "skip")
     return lines
 
 
@@ -1225,6 +1530,12 @@ def select_model_obs(case, out):
             res.append(kind + " " + ("-" if o == "bad-op" and _skipped(st, case, ts) else o))
         elif kind == "sort":
             res.append("sort " + o if o != "bad-op" else "sort ")
+        elif kind == "vcmp":
+            res.append("vcmp " + ("-" if o == "bad-op" and not _vcmp_modelled(ts[st[1]], ts[st[2]]) else o))
+        elif kind == "vsort":
+            res.append("vsort " + ("-" if o == "bad-op" and not _vsort_modelled([ts[i] for i in st[1]]) else o))
+        elif kind == "msort":
+            res.append("msort " + ("-" if o == "bad-op" and not _msort_modelled([ts[i] for i in st[1]]) else o))
     return res
 
 
@@ -1275,11 +1586,30 @@ def shrink(case):
 # ------------------------------------------------------------------ known findings: narrow matchers
 
 _U_ESC = re.compile(r"\\[uU][0-9A-Fa-f]{4}")
-_ORDER_TAGS = {"order-eq", "order-asym", "order-exc"}
+_ORDER_TAGS = {"order-eq", "order-asym", "order-exc", "ops-consistent", "fam-order", "fam-trans", "class-order"}
 _SORT_TAGS = {"sort-exc", "sort-repro"}
 
 
+def _by_value(a, b):
+    """the pair is ordered in value space: both have a value and the datatypes are both numeric, or the same with the same tag"""
+    if a.value is None or b.value is None:
+        return False
+    if a.datatype in T._NUMERIC_LITERAL_TYPES and b.datatype in T._NUMERIC_LITERAL_TYPES:
+        if a.ill_typed or b.ill_typed:
+            return False                                  # an ill-typed one goes by datatype IRI
+        try:                                              # the numeric fast path — unless the values have no order
+            a.value > b.value                             # (a value whose Python type does not fit the datatype: F13's route),
+            return True                                   # then the pair goes by datatype IRI as well
+        except TypeError:
+            return False
+    da = str(a.datatype) if a.datatype is not None else XSD + "string"
+    db = str(b.datatype) if b.datatype is not None else XSD + "string"
+    return da == db and (a.language or "").lower() == (b.language or "").lower()
+
+
 def _lt_cycle(lits):
+    """a `<` cycle of three literals that mixes value order with the fall-back order (datatype IRI / lexical form):
+    the shape of finding K4.  A cycle whose pairs are all ordered the same way is something else."""
     def lt(a, b):
         r = _try(lambda: a < b)
         return r is True
@@ -1288,7 +1618,9 @@ def _lt_cycle(lits):
             if a is not b and lt(a, b):
                 for c in lits:
                     if c is not a and c is not b and lt(b, c) and lt(c, a):
-                        return True
+                        kinds = {_try(lambda p=p: _by_value(*p)) for p in ((a, b), (b, c), (c, a))}
+                        if True in kinds and False in kinds:
+                            return True
     return False
 
 
@@ -1339,6 +1671,24 @@ def _lchars(s):
     return "[" + ", ".join("Char.ofNat %d" % ord(c) for c in s) + "]"
 
 
+def _lbool(b):
+    return "true" if b else "false"
+
+
+import datetime as _dt  # noqa: E402
+
+_NAIVE = _dt.datetime(2001, 10, 26, 21, 32, 52)
+_AWARE = _dt.datetime(2001, 10, 26, 21, 32, 52, tzinfo=_dt.timezone(_dt.timedelta(hours=2)))
+
+
+def _caster_flag(v):
+    c = T._TOTAL_ORDER_CASTERS.get(_dt.datetime)
+    if c is None:
+        return False
+    k = c(v)
+    return bool(isinstance(k, tuple) and len(k) == 2 and k[0] and k[1] == v)
+
+
 def TABLES():
     """lean/RV/C07/Tables.lean, regenerated from the live rdflib modules on every run"""
     from rdflib.compat import _string_escape_map
@@ -1376,6 +1726,12 @@ def TABLES():
          "def invalidUriChars : List Char := " + _lchars(T._invalid_uri_chars), "",
          "/-- `rdflib.term._NUMERIC_INF_NAN_LITERAL_TYPES` -/",
          "def infNanTypes : List (List Char) := [" + ", ".join(_lchars(str(u)) for u in T._NUMERIC_INF_NAN_LITERAL_TYPES) + "]", "",
+         "/-- `rdflib.term._NUMERIC_LITERAL_TYPES` (the numeric fast path of `Literal.__gt__` / `eq`) -/",
+         "def numericTypes : List (List Char) := [" + ", ".join(_lchars(str(u)) for u in T._NUMERIC_LITERAL_TYPES) + "]", "",
+         "/-- `datetime.datetime in rdflib.term._TOTAL_ORDER_CASTERS` and what its caster does with a naive and an aware value:",
+         "    the first component of the key it returns (probed) -/",
+         "def castsDatetime : Bool := " + _lbool(_dt.datetime in T._TOTAL_ORDER_CASTERS),
+         "def casterAwareFlag : Bool × Bool := (" + ", ".join(_lbool(_caster_flag(x)) for x in (_NAIVE, _AWARE)) + ")", "",
          "def xsdString : List Char := " + _lchars(str(T._XSD_STRING)),
          "def xsdNormalizedString : List Char := " + _lchars(str(T._XSD_NORMALISED_STRING)),
          "def xsdToken : List Char := " + _lchars(str(T._XSD_TOKEN)),
